@@ -1,5 +1,7 @@
 import Glom.Driver.InterpRun
 import Glom.Spec.Lexical
+import Glom.Spec.C07
+import Glom.Spec.C08
 namespace Glom.C07.Driver
 open Lean Glom.Interp Glom.Interp.Codec Glom.Interp.Run
 
@@ -25,7 +27,7 @@ def runOptDefault (j : Json) : Except String Json := do
   let refRes : Except String V := match rres with | .ok v => .ok v | .error e => .error e.cls
   if outOfDomain refRes then
     return Json.mkObj [("skip", true), ("why", "outside the modelled domain")]
-  let repeatSame := (j.getObjValAs? Bool "impl_repeat_same").toOption.getD true
+  let repeatSame ← j.getObjValAs? Bool "impl_repeat_same"
   let same := resEq refRes implRes
   return Json.mkObj [("agree", same), ("holds", same && repeatSame),
     ("why", if !same then "the default of an Optional key saw a binding made by the key of a sibling item (or missed an outer one)"
@@ -33,28 +35,79 @@ def runOptDefault (j : Json) : Except String Json := do
     ("model", Json.mkObj [("res", resToJson refRes)]),
     ("branch", match refRes with | .ok _ => "optdefault-ok" | .error e => s!"optdefault-err-{e}")]
 
+/-- `(S(v=Vars(name=<mutable default>)), Call(<mutator>, args=(S.v.name, T))…, S.v.name)`, one spec
+    object, several top-level calls: "never into the next call" — every call yields what the
+    mutators make of the default *as written* (`varsMutRef`); `agree` compares with the code as
+    it is (`varsMutCode`: the default object is shared by the calls) -/
+def runVarsMut (j : Json) : Except String Json := do
+  let dflt ← vOfJson (← j.getObjVal? "dflt")
+  let ms ← (← arr j "muts").mapM (fun m => match m with
+    | .str s => (match Mut.ofString? s with
+      | some x => pure x
+      | none => throw s!"unknown mutator {s}")
+    | o => throw s!"bad mutator {o.compress}")
+  let targets ← (← arr j "targets").mapM vOfJson
+  let impls ← (← arr j "impl").mapM (fun o => match o.getObjVal? "ok" with
+    | .ok v => do return (Except.ok (← vOfJson v) : Except String V)
+    | .error _ => do return .error (← o.getObjValAs? String "err"))
+  if impls.length != targets.length then throw "impl / targets length"
+  let render (os : List (Option V)) : List (Except String V) :=
+    os.map (fun o => match o with | some v => .ok v | none => .error "raises")
+  let refObs := render (varsMutRef prims dflt ms targets)
+  let codeObs := render (varsMutCode prims dflt ms targets)
+  if refObs.any (fun r => match r with | .error _ => true | _ => false) then
+    return Json.mkObj [("skip", true), ("why", "a mutator that does not apply to the default")]
+  let eqAll (a b : List (Except String V)) : Bool := a.length == b.length && (a.zip b).all (fun x => resEq x.1 x.2)
+  let holds := eqAll refObs impls
+  let agree := eqAll codeObs impls
+  return Json.mkObj [("agree", agree), ("holds", holds),
+    ("why", if holds then "" else "a Vars default mutated in place by one top-level call was seen by the next call of the same spec object"),
+    ("model", Json.arr (codeObs.map resToJson).toArray),
+    ("reference", Json.arr (refObs.map resToJson).toArray),
+    ("known_shape", if !holds && agree then "vars_mutable_default_persists" else ""),
+    ("branch", Json.str (if holds then "varsmut-fresh" else if agree then "varsmut-persists" else "varsmut-other"))]
+
+def implReads (log : List Json) : Except String (List (Nat × Except Err V)) :=
+  log.filterMapM (fun e => match e.getObjValAs? Nat "read" with
+    | .ok id => do
+      match e.getObjVal? "ok" with
+      | .ok v => return some (id, .ok (← vOfJson v))
+      | .error _ => return some (id, .error ⟨← e.getObjValAs? String "err"⟩)
+    | .error _ => pure none)
+
+def eqText (a b : V) : Bool := (vToJson (canonV a)).compress == (vToJson (canonV b)).compress
+
 /-- C07 checker: what every reader returned (value or PathAccessError) — hence the result of the
     call — is what the lexically scoped model yields; the caller's scope mapping is untouched; a
     second call with the same arguments behaves like the first (nothing outlives a call). -/
 def run (j : Json) : Except String Json := do
   if (j.getObjValAs? String "kind").toOption == some "optdefault" then
     return ← runOptDefault j
+  if (j.getObjValAs? String "kind").toOption == some "varsmut" then
+    return ← runVarsMut j
   let c ← decode j
   let (mres, mlog) := runModel c
   if outOfDomain mres then
     return Json.mkObj [("skip", true), ("why", "outside the modelled domain")]
+  if !(keyWrappersPlacedF (fuelFor c.spec) .auto false c.spec) then
+    return Json.mkObj [("skip", true), ("why", "Optional / Required outside the key position of a Match dict")]
   let mlogJ := mlog.map evToJson
   let logAgree := logText mlogJ == logText c.implLog
-  let untouched := (j.getObjValAs? Bool "impl_scope_untouched").toOption.getD true
-  let repeatSame := (j.getObjValAs? Bool "impl_repeat_same").toOption.getD true
+  let untouched ← j.getObjValAs? Bool "impl_scope_untouched"
+  let repeatSame ← j.getObjValAs? Bool "impl_repeat_same"
   let agree := resEq mres c.implRes && logAgree
   -- the property is evaluated against the reference semantics: the lexical, environment-passing
   -- interpreter (`interp` on the canonical scope `Obs`), proved equal to the frames model
   let (_, rres) := glomTopLex prims (fuelFor c.spec) c.spec c.target c.scope {}
   let refRes : Except String V := match rres with | .ok v => .ok v | .error e => .error e.cls
-  let holds := resEq refRes c.implRes && untouched && repeatSame
+  -- the independent checker: every recorded read is what the static scoping rules demand
+  -- (`Ref(name)` evaluates a spec text at another place than where it is written: not static)
+  let reads ← implReads c.implLog
+  let visOK := if noRefF (fuelFor c.spec) c.spec then checkVis eqText (fuelFor c.spec) c.spec c.scope reads else true
+  let holds := visOK && resEq refRes c.implRes && untouched && repeatSame
   return Json.mkObj [("agree", agree), ("holds", holds),
-    ("why", if !untouched then "the caller's scope mapping was modified"
+    ("why", if !visOK then "a reader yielded something else than the statically (lexically) visible binding of its name"
+            else if !untouched then "the caller's scope mapping was modified"
             else if !repeatSame then "a second identical call behaved differently (state outlived the call)"
             else if !holds then "result differs from the lexically scoped evaluation" else ""),
     ("model", Json.mkObj [("res", resToJson mres), ("log", Json.arr mlogJ.toArray)]),
